@@ -547,12 +547,22 @@ def ordered_map_valid_indexed_stream(data_field, map_field, result_field,
                 sm = sm_start
                 while sm < sm_end:
 
+                    prev_sm = sm
                     sm, ri, rv, ri_accum, need_subchunk = \
                         ordered_map_valid_indexed_partial(map_, sm_start, sm_end,
                                                           indices_, sc[0], sc[1], values_,
                                                           i_limits[0],
                                                           result_indices, result_values,
                                                           invalid, sm, ri, rv, ri_accum)
+
+                    if sm == prev_sm and not need_subchunk:
+                        # the partial call started with empty result buffers, consumed no map
+                        # entry and did not ask for more source values: the next entry is longer
+                        # than the whole value buffer, so no further call can make progress
+                        raise ValueError("ordered_map_valid_indexed_stream: a source entry is longer "
+                                         "than the value buffer (chunksize * value_factor = {} bytes); "
+                                         "use a larger chunksize or value_factor".format(
+                                             len(result_values)))
 
                     # update the subchunk if necessary
                     if need_subchunk:
